@@ -31,7 +31,7 @@ def canon(o):
         return o if o == o and o not in (float("inf"), float("-inf")) else {"__float__": repr(o)}
     if o is None or isinstance(o, (str, int, bool)):
         if isinstance(o, str) and len(o) > 200 and _looks_b64(o):
-            return {"__b64_sha256__": hashlib.sha256(o.encode()).hexdigest(), "len": len(o)}
+            return {"__b64_sha256__": hashlib.sha256(o.encode("utf-8", "backslashreplace")).hexdigest(), "len": len(o)}
         return o
     return {"__repr__": repr(o), "__type__": type(o).__name__}
 
